@@ -44,6 +44,7 @@ Arith ==
   /\ ToInt(BvNot(w, a)) = 2^w - 1 - x
   /\ y # 0 => /\ ToInt(Divu(w, a, b)) = DivuM(w, x, y) /\ Res(Divu(w, a, b), w)
               /\ ToInt(Modu(w, a, b)) = ModuM(w, x, y) /\ Res(Modu(w, a, b), w)
+              /\ DivModu(w, a, b) = DivModuSerial(w, a, b)          \* limb-wise (Knuth D) = bit-serial
               /\ ToInt(Divs(w, a, b)) = DivsM(w, x, y) /\ Res(Divs(w, a, b), w)
               /\ ToInt(Mods(w, a, b)) = ModsM(w, x, y) /\ Res(Mods(w, a, b), w)
 
